@@ -156,8 +156,77 @@ ITEMS.update({
     'BasicTypeKind::from_type': fn(TY + 'basic_union.rs', 'from_type', 'BasicTypeKind', ret='r', ensures='r == sp_kind_of(*value)'),
     'LuaType::is_number': fn(TY + 'types/predicates.rs', 'is_number', 'LuaType', ret='r', ensures='r == sp_is_number(*self)'),
     'LuaType::is_union': fn(TY + 'types/predicates.rs', 'is_union', 'LuaType', ret='r', ensures='r == (*self is Union)'),
-    'LuaType::from_vec': fn(TY + 'types/predicates.rs', 'from_vec', 'LuaType', ret='r'),
-    'LuaUnionType::from_vec': fn(TY + 'types/complex.rs', 'from_vec', 'LuaUnionType', ret='r', rules=['c16-contains', 'c16-find-non-nil']),
+    'LuaType::from_vec': fn(
+        TY + 'types/predicates.rs', 'from_vec', 'LuaType', ret='r', attrs='#[verifier::spinoff_prover]',
+        ensures='from_vec_post(types@, r) /*@C16.union.from-vec-is-union-of-distinct-members*/',
+        body_first='let ghost ts = types@; proof { if ts.len() == 1 { lemma_dedupe_single(ts); } }',
+        iter_names={0: 'it', 1: 'it2'},
+        loops={0: '''invariant
+                it.seq() == ts, ts.len() >= 2,
+                batch_hyp(ts) ==> (result_types@ == dedupe(ts.take(it.index@)) && hash_set.elems() == result_types@),''',
+               1: '''invariant
+                it.seq() == ts, ts.len() >= 2, !no_unions(ts),'''},
+        proof=[
+            (r'LuaType::Union\(u\) => \{', 'after', '''proof { assert(ts[it.index@] is Union); }'''),
+            (r'if hash_set\.insert\(typ\.clone\(\)\) \{', 'before', '''proof { if batch_hyp(ts) { lemma_dedupe_step(ts, it.index@); } }'''),
+            (r'match result_types\.len\(\) \{', 'before', '''proof {
+                    if batch_hyp(ts) {
+                        assert(ts.take(ts.len() as int) == ts);
+                        lemma_dedupe_props(ts);
+                        let d = dedupe(ts);
+                        if d.len() >= 2 { assert(ts.contains(d[0])); }
+                    }
+                }'''),
+        ]),
+    'LuaUnionType::from_vec': fn(
+        TY + 'types/complex.rs', 'from_vec', 'LuaUnionType', ret='r', rules=['c16-contains', 'c16-find-non-nil'], attrs='#[verifier::spinoff_prover]',
+        ensures='union_from_vec_post(types@, r) /*@C16.union.from-vec-keeps-members*/',
+        iter_names={0: 'it'},
+        loops={0: '''invariant
+                it.seq().len() == types@.len(), forall|k: int| 0 <= k < it.seq().len() ==> *(#[trigger] it.seq()[k]) == types@[k],
+                all_basic ==> forall|i: int| 0 <= i < it.index@ ==> (sp_kind_of(#[trigger] types@[i]) matches Some(k) && sp_basic_has(basic_type, k)),
+                forall|k: BasicTypeKind| #[trigger] sp_basic_has(basic_type, k) ==> exists|i: int| 0 <= i < it.index@ && sp_kind_of(#[trigger] types@[i]) == Some(k),
+            ensures all_basic ==> it.index@ == types@.len(),'''},
+        proof=[
+            (r'return Self::Basic\(basic_type\);', 'before', '''proof {
+                lemma_basic_members_all(basic_type);
+                let m = sp_basic_members(basic_type);
+                assert forall|i: int| 0 <= i < m.len() implies types@.contains(#[trigger] m[i]) by {
+                    assert(m.contains(m[i]));
+                    let k = sp_kind_of(m[i])->Some_0;
+                    let j = choose|j: int| 0 <= j < types@.len() && sp_kind_of(#[trigger] types@[j]) == Some(k);
+                    assert(types@[j] == m[i]);
+                }
+                assert forall|i: int| 0 <= i < types@.len() implies m.contains(#[trigger] types@[i]) by { }
+                assert forall|i: int, j: int| 0 <= i < m.len() && 0 <= j < m.len() && i != j implies !teq(#[trigger] m[i], #[trigger] m[j]) by {
+                    assert(m.contains(m[i]));
+                    if i < j { assert(m[i] != m[j]); } else { assert(m[j] != m[i]); }
+                    lemma_teq_basic(m[i], m[j]);
+                }
+                if eq_obeys() && teq_dupfree(types@) && types@.len() >= 2 && teq(types@[0], types@[0]) {
+                    assert(!teq(types@[0], types@[1]));
+                    assert(types@[0] != types@[1]);
+                    assert(m.contains(types@[0]) && m.contains(types@[1]));
+                    let i0 = choose|i: int| 0 <= i < m.len() && m[i] == types@[0];
+                    let i1 = choose|i: int| 0 <= i < m.len() && m[i] == types@[1];
+                    assert(i0 != i1);
+                }
+            }'''),
+            (r'return Self::Nullable\(ty\.clone\(\)\);', 'before', '''proof {
+                if eq_obeys() {
+                    let j = choose|j: int| 0 <= j < types@.len() && teq(#[trigger] types@[j], LuaType::Nil);
+                    lemma_teq_nil(types@[j]);
+                    lemma_teq_nil(*ty);
+                    let m = seq![*ty, LuaType::Nil];
+                    assert(m[0] == *ty && m[1] == LuaType::Nil);
+                    assert(types@[0] == *ty && types@[1] is Nil || types@[1] == *ty && types@[0] is Nil);
+                    assert(types@.contains(m[0]) && types@.contains(m[1]));
+                    assert(m.contains(types@[0]) && m.contains(types@[1])) by {
+                        if types@[0] == *ty { assert(m[0] == types@[0]); assert(m[1] == types@[1]); } else { assert(m[1] == types@[0]); assert(m[0] == types@[1]); }
+                    }
+                }
+            }'''),
+        ]),
     'LuaUnionType::into_vec': fn(TY + 'types/complex.rs', 'into_vec', 'LuaUnionType', ret='r', rules=['c16-basic-collect'],
                                  ensures='r@ == sp_into_vec(*self) /*@C16.union.into-vec*/'),
     'can_use_structural_union': fn(
@@ -181,21 +250,96 @@ ITEMS.update({
                 !(has_number && has_number_variant) && !(has_integer && has_integer_const) && !(has_string && has_string_const)
                     && !(has_boolean && boolean_const_count > 0) && !(has_table && has_table_const),
                 forall|i: int, j: int| 0 <= i < it.index@ && 0 <= j < it.index@ && i != j ==> !pair_rule(#[trigger] types@[i], #[trigger] types@[j]) /*@C16.union.fast-path-only-without-pair-rules.inv*/,'''}),
-    'union_type_impl': fn(UT, 'union_type_impl', ret='r', rules=['c16-mlu-include', 'c16-contains']),
+    'union_type_impl': fn(
+        UT, 'union_type_impl', ret='r', rules=['c16-mlu-include', 'c16-contains'], attrs='#[verifier::spinoff_prover]',
+        body_first='proof { reveal(teq); }',
+        ensures='impl_post(*match_source, source, target, r) /*@C16.union.step*/'),
     'canonicalize_callable_union': {
         'src': {'kind': 'slice', 'name': 'canonicalize_callable_union',
                 'in': {'file': UT, 'kind': 'fn', 'name': 'canonicalize_callable_union'},
                 'from': 'BODY_START', 'to': r'return LuaType::from_vec\(members\);\s*\}',
                 'head': 'pub fn canonicalize_callable_union(db: &DbIndex, ty: LuaType) -> LuaType',
                 'tail': '    vx_canonicalize_callables(db, members)'},
-        'rules': ['c16-any-callable'], 'ret': 'r'},
-    'union_type': fn(UT, 'union_type', ret='r', rules=['c16-cloned-or-else']),
+        'rules': ['c16-any-callable'], 'ret': 'r',
+        'ensures': 'canon_post(ty, r) /*@C16.union.canonicalize-keeps-plain-unions*/'},
+    'union_type': fn(UT, 'union_type', ret='r', rules=['c16-cloned-or-else'],
+                     ensures='union_type_post(source, target, r) /*@C16.union.one-step*/'),
     'union_fold': {
         'src': {'kind': 'slice', 'name': 'union_fold', 'in': {'file': UT, 'kind': 'fn', 'name': 'union_type_all'},
                 'from': r'let mut result = LuaType::Never;', 'to': r'\n    result\n',
                 'head': 'pub fn union_fold(db: &DbIndex, result_types: Vec<LuaType>) -> LuaType', 'tail': ''},
-        'ret': 'r'},
-    'union_type_all': fn(UT, 'union_type_all', ret='r', rules=['c16-mono-vec']),
+        'ret': 'r',
+        'ensures': 'fold_hyp(result_types@) ==> acc_ok(r, dedupe(result_types@)) /*@C16.union.fold-is-union-of-distinct-members*/',
+        'body_first': 'let ghost ts = result_types@;',
+        'iter_names': {0: 'it'},
+        'loops': {0: '''invariant
+                it.seq() == ts,
+                fold_hyp(ts) ==> acc_ok(result, dedupe(ts.take(it.index@))) /*@C16.union.fold-is-union-of-distinct-members.inv*/,'''},
+        'proof': [
+            (r'result = union_type\(db, result, typ\);', 'before', 'let ghost acc0 = result;'),
+            (r'result = union_type\(db, result, typ\);', 'after', '''proof {
+                if fold_hyp(ts) {
+                    let k = it.index@;
+                    lemma_regular_take(ts, k);
+                    lemma_dedupe_props(ts.take(k));
+                    let d = dedupe(ts.take(k));
+                    if d.len() == 1 { assert(ts.take(k).contains(d[0])); let j = choose|j: int| 0 <= j < ts.take(k).len() && ts.take(k)[j] == d[0]; assert(ts[j] == d[0]); assert(plain(ts[j])); }
+                    assert(!(acc0 is Ref));
+                    let mid = choose|mid: LuaType| #[trigger] impl_post(acc0, acc0, typ, mid) && canon_post(mid, result);
+                    lemma_fold_step(ts, k, acc0, mid, result);
+                }
+            }'''),
+            (r'\n    result\n', 'before', '''
+    proof { assert(ts.take(ts.len() as int) == ts); }'''),
+        ]},
+    'union_type_all': fn(
+        UT, 'union_type_all', ret='r', rules=['c16-mono-vec'],
+        ensures='''
+        has_any(types@) ==> r is Any /*@C16.union.batch.any-absorbs*/,
+        !has_any(types@) && drop_never(types@).len() == 0 ==> r is Never /*@C16.union.batch.empty-is-never*/,
+        (!has_any(types@) && drop_never(types@).len() >= 1 && fold_hyp(drop_never(types@)) && dup_coherent(drop_never(types@)))
+            ==> union_of(r, dedupe(drop_never(types@))) /*@C16.union.batch-is-union-of-distinct-members*/''',
+        body_first='let ghost ts0 = types@;',
+        iter_names={0: 'it', 1: 'it2'},
+        loops={0: '''invariant
+                it.seq() == ts0, !has_any(ts0.take(it.index@)),
+                result_types@ == drop_never(ts0.take(it.index@)) /*@C16.union.batch.never-is-dropped.inv*/,''',
+               1: '''invariant
+                it2.seq() == ts, fold_hyp(ts) ==> acc_ok(result, dedupe(ts.take(it2.index@))),'''},
+        proof=[
+            (r'match typ \{', 'before', '''proof {
+                let k = it.index@;
+                assert(ts0.take(k + 1) == ts0.take(k).push(ts0[k]));
+                lemma_drop_never_push(ts0.take(k), ts0[k]);
+                if typ is Any { assert(ts0[k] is Any); }
+                else {
+                    assert forall|i: int| 0 <= i < ts0.take(k + 1).len() implies !(#[trigger] ts0.take(k + 1)[i] is Any) by {
+                        if i < k { assert(ts0.take(k)[i] == ts0.take(k + 1)[i]); }
+                    }
+                }
+            }'''),
+            (r'if result_types\.is_empty\(\) \{', 'before', '''proof { assert(ts0.take(ts0.len() as int) == ts0); }
+    let ghost ts = result_types@;'''),
+            (r'return LuaType::from_vec\(result_types\);', 'before', '''proof {
+            assert(structural_batch(ts)) /*@C16.union.fast-path-only-for-structural-batches*/;
+            if fold_hyp(ts) && dup_coherent(ts) { assert(batch_hyp(ts)); }
+        }'''),
+            (r'result = union_type\(db, result, typ\);', 'before', 'let ghost acc0 = result;'),
+            (r'result = union_type\(db, result, typ\);', 'after', '''proof {
+                if fold_hyp(ts) {
+                    let k = it2.index@;
+                    lemma_regular_take(ts, k);
+                    lemma_dedupe_props(ts.take(k));
+                    let d = dedupe(ts.take(k));
+                    if d.len() == 1 { assert(ts.take(k).contains(d[0])); let j = choose|j: int| 0 <= j < ts.take(k).len() && ts.take(k)[j] == d[0]; assert(ts[j] == d[0]); assert(plain(ts[j])); }
+                    assert(!(acc0 is Ref));
+                    let mid = choose|mid: LuaType| #[trigger] impl_post(acc0, acc0, typ, mid) && canon_post(mid, result);
+                    lemma_fold_step(ts, k, acc0, mid, result);
+                }
+            }'''),
+            (r'\n    result\n\}', 'before', '''
+    proof { assert(ts.take(ts.len() as int) == ts); if fold_hyp(ts) { lemma_dedupe_props(ts); } }'''),
+        ]),
 })
 
 UNIT = {
@@ -283,5 +427,41 @@ UNIT = {
         {'name': 'eq-ignores-def-id', 'item': 'LuaType::eq',
          'pattern': r'\(LuaType::Def\(a\), LuaType::Def\(b\)\) => a == b,', 'repl': '(LuaType::Def(a), LuaType::Def(b)) => true,',
          'expect': r'C16\.eq\.is-teq'},
+        # ---- (e) union building
+        {'name': 'structural-drops-integer-conflict', 'item': 'can_use_structural_union',
+         'pattern': r'\|\| has_integer && has_integer_const\s*', 'repl': '', 'expect': r'C16\.union\.fast-path-only-without-pair-rules'},
+        {'name': 'structural-drops-two-boolean-consts', 'item': 'can_use_structural_union',
+         'pattern': r'\|\| boolean_const_count > 1\s*', 'repl': '', 'expect': r'C16\.union\.fast-path-only-without-pair-rules'},
+        {'name': 'structural-lets-ref-through', 'item': 'can_use_structural_union',
+         'pattern': r'\| LuaType::Ref\(_\)\s*', 'repl': '', 'expect': r'C16\.union\.fast-path-only-without-pair-rules'},
+        {'name': 'structural-lets-nested-union-through', 'item': 'can_use_structural_union',
+         'pattern': r'LuaType::Union\(_\)\s*\| LuaType::Ref\(_\)', 'repl': 'LuaType::Ref(_)', 'expect': r'C16\.union\.fast-path-only-without-pair-rules'},
+        {'name': 'fast-path-unconditional', 'item': 'union_type_all',
+         'pattern': r'if can_use_structural_union\(&result_types\) \{', 'repl': 'if true {', 'expect': r'C16\.union\.fast-path-only-for-structural-batches'},
+        {'name': 'batch-keeps-never', 'item': 'union_type_all',
+         'pattern': r'LuaType::Never => \{\}', 'repl': 'LuaType::Never => result_types.push(typ),', 'expect': r'C16\.union\.batch\.never-is-dropped'},
+        {'name': 'batch-ignores-any', 'item': 'union_type_all',
+         'pattern': r'LuaType::Any => return LuaType::Any,', 'repl': 'LuaType::Any => {}', 'expect': r'C16\.union\.batch\.any-absorbs'},
+        {'name': 'from-vec-single-is-nil', 'item': 'LuaType::from_vec',
+         'pattern': r'1 => result_types\[0\]\.clone\(\),', 'repl': '1 => LuaType::Nil,', 'expect': r'C16\.union\.from-vec-is-union-of-distinct-members'},
+        {'name': 'from-vec-keeps-duplicates', 'item': 'LuaType::from_vec',
+         'pattern': r'if hash_set\.insert\(typ\.clone\(\)\) \{\s*result_types\.push\(typ\);\s*\}',
+         'repl': 'if hash_set.insert(typ.clone()) {\n result_types.push(typ);\n } else { result_types.push(LuaType::Nil); }',
+         'expect': r'C16\.union\.from-vec-is-union-of-distinct-members'},
+        {'name': 'union-from-vec-multi-becomes-basic', 'item': 'LuaUnionType::from_vec',
+         'pattern': r'Self::Multi\(types\)\s*\}$', 'repl': 'Self::Basic(basic_type)\n    }', 'expect': r'C16\.union\.from-vec-keeps-members'},
+        {'name': 'into-vec-nullable-drops-nil', 'item': 'LuaUnionType::into_vec',
+         'pattern': r'vec!\[ty\.clone\(\), LuaType::Nil\]', 'repl': 'vec![ty.clone()]', 'expect': r'C16\.union\.into-vec'},
+        {'name': 'impl-union-arm-skips-contains', 'item': 'union_type_impl',
+         'pattern': r'if types\.contains\(right\) \{\s*return source\.clone\(\);\s*\}', 'repl': 'let _ = types.contains(right);',
+         'expect': r'C16\.union\.step'},
+        {'name': 'impl-never-arm-dropped', 'item': 'union_type_impl',
+         'pattern': r'\(LuaType::Never, _\) => target,', 'repl': '', 'expect': r'C16\.union\.step'},
+        {'name': 'impl-same-type-arm-dropped', 'item': 'union_type_impl',
+         'pattern': r'\(left, right\) if \*left == \*right => source\.clone\(\),', 'repl': '', 'expect': r'C16\.union\.step'},
+        {'name': 'fold-starts-from-nil', 'item': 'union_fold',
+         'pattern': r'let mut result = LuaType::Never;', 'repl': 'let mut result = LuaType::Nil;', 'expect': r'C16\.union\.fold-is-union-of-distinct-members'},
+        {'name': 'canonicalize-drops-union', 'item': 'canonicalize_callable_union',
+         'pattern': r'return LuaType::from_vec\(members\);', 'repl': 'return LuaType::Nil;', 'expect': r'C16\.union\.canonicalize-keeps-plain-unions'},
     ],
 }
